@@ -74,14 +74,14 @@ class C02(Check):
         return jobs
 
 
-def _line_jobs(specs, mons, tier, e2q=3, e2t=10, **caps):
+def _line_jobs(specs, mons, tier, e2q=3, e2t=10, trace=False, **caps):
     caps.setdefault('max_states', 400000)
     caps.setdefault('max_seconds', 900)
     caps.setdefault('max_depth', 800)
     out = []
     for sp in split_specs(specs):
         m = [(['route', sp['name'].startswith('FAN')] if x == 'route' else x) for x in mons]
-        out.append(line_job(sp, m, e2=e2q if tier == 'quick' else e2t, **caps))
+        out.append(line_job(sp, m, e2=e2q if tier == 'quick' else e2t, trace=trace, **caps))
     return out
 
 
@@ -256,7 +256,9 @@ class C15(Check):
     def jobs(self, tier):
         K = 1 if tier == 'quick' else 2
         specs = catalogue(K, tier != 'quick') + [S.MAINT(K + 1, n=1), S.VALUE(K)]
-        return _line_jobs(specs, ['data'], tier)
+        # the same log obligations across consecutive simulate() calls, with operations issued between the runs
+        specs += [S.with_splits(x) for x in (S.RES(K), S.MAINT(K, n=1), S.BUDGET(K), S.BATCH(K), S.FAN(K))]
+        return _line_jobs(specs, ['data'], tier, e2q=6, e2t=20, trace=True)
 
 
 @check
